@@ -49,8 +49,10 @@ structure DState where
   roleTxs : List (CTx (GCall DesOp)) := []
   gpbTxs : List (CTx (GCall Int)) := []
   mdTxs : List (CTx (GCall Int)) := []
-  gpvA : GpvState := { store := [], cache := [] }   -- NEO reward-per-vote records (prefix 23) / gasPerVoteCache
-  gpvB : GpvState := { store := [], cache := [] }
+  -- NEO reward-per-vote records (prefix 23) / gasPerVoteCache and the reward fields of the account records (the standby
+  -- validators' account holds all NEO at genesis)
+  rsA : Reward.RState := { gpv := { store := [], cache := [] }, acc := [(Acct.other 0, (0, 0))] }
+  rsB : Reward.RState := { gpv := { store := [], cache := [] }, acc := [(Acct.other 0, (0, 0))] }
   mdA : Comp.CNode Int Unit := { store := 1000000000, cache := (), height := 0 }   -- defaultMinimumDeploymentFee (management.go:816)
   mdB : Comp.CNode Int Unit := { store := 1000000000, cache := (), height := 0 }
   mgTxs : List (CTx Mgmt.MOp) := []
@@ -353,12 +355,13 @@ def gpbStr (g : Comp.CNode (List (Nat × Int)) (List (Nat × Int))) (next : Nat)
 
 def compsStr (s : DState) (sn : Comp.CNode (List (Nat × Int)) (List (Nat × Int))) (rn : Comp.CNode RoleStore RoleCache)
     (mn : Comp.CNode Mgmt.MStore Mgmt.MCache) (g : Comp.CNode (List (Nat × Int)) (List (Nat × Int)))
-    (md : Comp.CNode Int Unit) (gv : GpvState) (height : Nat) : String :=
-  let gpv := (List.range s.nkeys).filterMap fun i => (aget gv.store (rankOf s i)).map fun v => s!"{i}:{v}"
-  s!"set={settingsStr sn} roles={rolesStr s rn} mgmt={mgmtStr s mn} mdf={minDeployFee md.store}/{md.store} gpb={gpbStr g (height + 1)} gpv={joinOr "," gpv}"
+    (md : Comp.CNode Int Unit) (rs : Reward.RState) (height : Nat) : String :=
+  let gpv := (List.range s.nkeys).filterMap fun i => (aget rs.gpv.store (rankOf s i)).map fun v => s!"{i}:{v}"
+  let rw := sortStr (rs.acc.map fun (a, (bh, last)) => s!"{tokOf s a}:{bh}:{last}")
+  s!"set={settingsStr sn} roles={rolesStr s rn} mgmt={mgmtStr s mn} mdf={minDeployFee md.store}/{md.store} gpb={gpbStr g (height + 1)} gpv={joinOr "," gpv} rw={joinOr "," rw}"
 
 def obsBoth (s : DState) : String :=
-  s!"{obsNode s s.a s.wlA (compsStr s s.setA s.roleA s.mgA s.gpbA s.mdA s.gpvA s.a.height)} | {obsNode s s.b s.wlB (compsStr s s.setB s.roleB s.mgB s.gpbB s.mdB s.gpvB s.b.height)}"
+  s!"{obsNode s s.a s.wlA (compsStr s s.setA s.roleA s.mgA s.gpbA s.mdA s.rsA s.a.height)} | {obsNode s s.b s.wlB (compsStr s s.setB s.roleB s.mgB s.gpbB s.mdB s.rsB s.b.height)}"
 
 def resStr : Res → String
   | .haltTrue => "halt true"
@@ -549,11 +552,11 @@ def dstep (s : DState) (ws : List String) : DState × String :=
     -- (PostPersist: GetGASPerBlock(ic.BlockHeight()+1) = index h+1, the block being already processed by Ledger)
     let gpbA' := gpb.estep s.gpbA (.block eA s.gpbTxs)
     let gpbB' := gpb.estep s.gpbB (.block eB s.gpbTxs)
-    let gpvOps (n : NNode) (g : Comp.CNode (List (Nat × Int)) (List (Nat × Int))) : List GpvOp :=
+    let rewards (n : NNode) (g : Comp.CNode (List (Nat × Int)) (List (Nat × Int))) (rs : Reward.RState) : Reward.RState :=
       match n.read () with
-      | some st => Reward.gpvOpsOfBlock s.cfg st n.cache (n.height + 1) s.pending ((gpbLookup g.cache (n.height + 2)).getD 0)
-      | none => []
-    let s := { s with gpvA := gpvRun s.gpvA (gpvOps s.a gpbA'), gpvB := gpvRun s.gpvB (gpvOps s.b gpbB') }
+      | some st => Reward.rewardsOfBlock s.cfg st n.cache (n.height + 1) s.pending ((gpbLookup g.cache (n.height + 2)).getD 0) rs
+      | none => rs
+    let s := { s with rsA := rewards s.a gpbA' s.rsA, rsB := rewards s.b gpbB' s.rsB }
     let s := stepBoth s (.addBlock s.pending)
     let wops := s.wlPending.filterMap id
     let s := { s with a := step (nativeSys s.cfg) s.a .flush, pending := [], wlPending := [],
@@ -568,7 +571,7 @@ def dstep (s : DState) (ws : List String) : DState × String :=
   | ["restartB"] => ({ s with b := step (nativeSys s.cfg) s.b .restart, wlB := wlApply s.wlB [.restart],
                                setB := gsettings.estep s.setB .restart, roleB := gdesignate.estep s.roleB .restart,
                                mgB := (Mgmt.management mgmtParams).cstep s.mgB .restart, gpbB := gpb.estep s.gpbB .restart,
-                               mdB := gmindeploy.estep s.mdB .restart, gpvB := gpvStep s.gpvB .restart }, "ok")
+                               mdB := gmindeploy.estep s.mdB .restart, rsB := { s.rsB with gpv := gpvStep s.rsB.gpv .restart } }, "ok")
   | ["flushB"] => ({ s with b := step (nativeSys s.cfg) s.b .flush }, "ok")
   | ["final"] => (s, obsBoth s)
   | ["aborted"] => (s, "aborted")
